@@ -407,9 +407,8 @@ static void run(const vf::Args &args, Report &rep)
         Bad bad[T];
         uint64_t seeds[T];
         for (int t = 0; t < T; t++) seeds[t] = vf::mix64(args.seed, 0xC0C0 + args.shard * 131 + t);
-#pragma omp parallel num_threads(T)
-        {
-            int me = omp_get_thread_num();
+        vf::team(T, [&](int me_) {
+            int me = me_;
             Rng q(seeds[me % T]);
             Bad &mine_bad = bad[me % T];
             for (uint64_t t = 0; t < n / T; t++)
@@ -424,7 +423,7 @@ static void run(const vf::Args &args, Report &rep)
                 for (auto &x : r)
                     if (orc::canon(x.got) != x.exp && !mine_bad.set) { mine_bad.set = true; mine_bad.op = x.op; mine_bad.a = a; mine_bad.b = b; mine_bad.got = x.got; mine_bad.exp = x.exp; }
             }
-        }
+        });
         for (int t = 0; t < T; t++)
             if (bad[t].set)
                 rep.violation(std::string("C01:") + bad[t].op + ":concurrent-callers:wrong-value", J().str("op", bad[t].op).str("what", "8 threads calling the scalar operations at the same time, each on its own operands").h("a", bad[t].a).h("b", bad[t].b).h("got_raw", bad[t].got).h("expected", bad[t].exp).i("thread", t).done());
@@ -649,9 +648,8 @@ static void run(const vf::Args &args, Report &rep)
         struct Bad { const char *op = nullptr; uint64_t a = 0, b = 0; } bad[T];
         uint64_t seeds[T];
         for (int t = 0; t < T; t++) seeds[t] = vf::mix64(args.seed, 0x10CC + args.shard * 131 + t);
-#pragma omp parallel num_threads(T)
-        {
-            int me = omp_get_thread_num() % T;
+        vf::team(T, [&](int me_) {
+            int me = me_;
             Rng q(seeds[me]);
             for (uint64_t t = 0; t < nc; t++)
             {
@@ -662,7 +660,7 @@ static void run(const vf::Args &args, Report &rep)
                 if (cn(Goldilocks::div(mk(b), mk(a))) != orc::mul(b, ia) && !bad[me].op) { bad[me].op = "div"; bad[me].a = b; bad[me].b = a; }
                 if ((t & 3) == 0 && cn(Goldilocks::exp(mk(a), b)) != orc::pw(a, b) && !bad[me].op) { bad[me].op = "exp"; bad[me].a = a; bad[me].b = b; }
             }
-        }
+        });
         for (int t = 0; t < T; t++)
             if (bad[t].op) rep.violation(std::string("C10:") + bad[t].op + ":concurrent-callers:wrong-value", J().str("op", bad[t].op).h("a", bad[t].a).h("b", bad[t].b).str("what", "8 threads calling the operation at the same time on their own operands").done());
         rep.evaluations += nc * T;
@@ -898,6 +896,33 @@ static void run(const vf::Args &args, Report &rep)
             if (rng.coin()) v = -v;
             check_str(rep, z, v, 2 + (int)rng.below(35), rng.coin(), "string_random");
         }
+        // the same literal read in several radices one right after the other (the value depends on both arguments)
+        uint64_t nl = args.getu("literals", args.thorough() ? 400000ULL : 20000ULL) / args.nshards + 1;
+        for (uint64_t t = 0; t < nl; t++)
+        {
+            static const int DMAX[] = {2, 2, 8, 10, 16, 30};
+            int dmax = DMAX[rng.below(6)];
+            int len = 1 + (int)rng.below(rng.coin() ? 6 : 40);
+            std::string lit;
+            if (rng.below(3) == 0) lit += '-';
+            bool up = rng.coin();
+            for (int i = 0; i < len; i++) { int d = (int)rng.below(dmax); if (i == 0 && len > 1 && d == 0) d = 1; lit += (char)(d < 10 ? '0' + d : (up ? 'A' : 'a') + d - 10); }
+            int k = 2 + (int)rng.below(4);
+            for (int j = 0; j < k; j++)
+            {
+                int radix = dmax + (int)rng.below(37 - dmax);
+                mpz_class v(lit, radix);
+                uint64_t exp = z.residue(v);
+                El e = Goldilocks::fromString(lit, radix), e2 = mk(3);
+                Goldilocks::fromString(e2, lit, radix);
+                rep.evaluations++;
+                if (cn(e) != exp || cn(e2) != exp)
+                    rep.violation("C15:fromString:wrong-residue:same-literal-in-consecutive-radices", J().str("family", "same_literal_consecutive_radices").str("value", lit).i("radix", radix).i("call_in_sequence", j).h("got", e.fe).h("got_by_reference", e2.fe).h("expected", exp).done());
+            }
+            rep.cls("fromString:same_literal_in_consecutive_radices");
+            rep.nontrivial(vf::mix64(std::hash<std::string>()(lit), 77));
+            if (t < 3) rep.sample("same_literal_consecutive_radices", J().str("value", lit).done());
+        }
     }
     // ---- concurrent callers: conversions in both directions from 8 threads, own values
     {
@@ -906,9 +931,8 @@ static void run(const vf::Args &args, Report &rep)
         struct Bad { const char *op = nullptr; uint64_t v = 0; } bad[T];
         uint64_t seeds[T];
         for (int t = 0; t < T; t++) seeds[t] = vf::mix64(args.seed, 0x15CC + args.shard * 131 + t);
-#pragma omp parallel num_threads(T)
-        {
-            int me = omp_get_thread_num() % T;
+        vf::team(T, [&](int me_) {
+            int me = me_;
             Rng q(seeds[me]);
             for (uint64_t t = 0; t < nc; t++)
             {
@@ -933,7 +957,7 @@ static void run(const vf::Args &args, Report &rep)
                 if (ce >= -2147483648LL && ce <= 2147483647LL) { int32_t o; if (!Goldilocks::toS32(o, mk(v)) || o != (int32_t)ce) flag("toS32"); }
                 if (Goldilocks::isZero(mk(v)) != (c == 0) || Goldilocks::isOne(mk(v)) != (c == 1) || !Goldilocks::equal(mk(v), mk(c))) flag("predicates");
             }
-        }
+        });
         for (int t = 0; t < T; t++)
             if (bad[t].op) rep.violation(std::string("C15:") + bad[t].op + ":concurrent-callers", J().str("op", bad[t].op).h("value", bad[t].v).str("what", "8 threads converting their own values at the same time").done());
         rep.evaluations += nc * T;
